@@ -53,6 +53,7 @@ func propC02(w *World, r *Run) {
 	ruleComposedSQL(w, r, "C02.e")
 	ruleNewKeepsConfig(w, r, "C02.f")
 	ruleAdapter(w, r, "C02.g")
+	ruleDecodeTargetFresh(w, r, "C02.h")
 }
 
 func propC03(w *World, r *Run) {
@@ -90,6 +91,7 @@ func propC04(w *World, r *Run) {
 	ruleClientReadsWholeBody(w, r, "C04.h")
 	ruleDistributorAs(w, r, "C15.a", "C04.j")
 	ruleWitnessBytesImmutable(w, r, "C04.k")
+	ruleNoManualEncoding(w, r, "C04.l")
 }
 
 func propC07(w *World, r *Run) {
@@ -111,6 +113,8 @@ func propC07(w *World, r *Run) {
 	ruleNoMemoisedStorageError(w, r, "C07.i")
 	ruleRowsClosed(w, r, "C07.j")
 	ruleLocksReleased(w, r, "C07.k")
+	ruleNoHiddenVerdictState(w, r, a, "C07.l")
+	ruleImmut(w, r, "C07.l", immutCoreFields(w, r, "C07.l", "Witness"))
 }
 
 func propC08(w *World, r *Run) {
@@ -131,6 +135,8 @@ func propC08(w *World, r *Run) {
 	ruleBastionGetsAllLogs(w, r, "C08.h")
 	ruleServeUnderCallersContext(w, r, "C08.i")
 	ruleCompareAndSet(w, r, "C08.j")
+	ruleReadLimitsConstant(w, r, "C08.k")
+	ruleContentLengthUnknownIsNotEmpty(w, r, "C08.k")
 }
 
 func propC09(w *World, r *Run) {
@@ -147,6 +153,8 @@ func propC09(w *World, r *Run) {
 	ruleAdapter(w, r, "C09.f")
 	ruleComposedInMemory(w, r, "C09.g")
 	ruleBastionGetsAllLogs(w, r, "C09.h")
+	ruleComposedSQL(w, r, "C09.g")
+	ruleContentLengthUnknownIsNotEmpty(w, r, "C09.i")
 }
 
 func propC20(w *World, r *Run) {
@@ -189,6 +197,7 @@ func propC05(w *World, r *Run) {
 	ruleNotFoundExact(w, r, "C05.i")
 	ruleStoredBytesNotRecycled(w, r, "C05.g")
 	ruleAdapter(w, r, "C05.j")
+	ruleStatusTable(w, r, a, "C05.k")
 }
 
 func propC06(w *World, r *Run) {
@@ -234,6 +243,9 @@ func propC10(w *World, r *Run) {
 	ruleNotFoundExact(w, r, "C10.k")
 	ruleVerdictStatusAfterUpdate(w, r, "C10.l")
 	ruleLimiterBurstIsRate(w, r, "C10.m")
+	ruleCompareAndSet(w, r, "C10.n")
+	ruleComposedInMemory(w, r, "C10.n")
+	ruleContentLengthUnknownIsNotEmpty(w, r, "C10.o")
 }
 
 func propC11(w *World, r *Run) {
@@ -322,6 +334,8 @@ func propC12(w *World, r *Run) {
 	ruleReadAPIAs(w, r, "C12.g")
 	ruleDistributorAs(w, r, "C15.c", "C12.h")
 	ruleNoOwnHasher(w, r, "C12.i")
+	ruleClientReadsWholeBody(w, r, "C12.j")
+	ruleSharedHandlesNotMutated(w, r, "C12.j")
 }
 
 func propC14(w *World, r *Run) {
@@ -343,6 +357,7 @@ func propC14(w *World, r *Run) {
 	ruleRekorProofRequest(w, r, "C14.g")
 	ruleFeedLogFailsOnlyOnConfig(w, r, "C14.h")
 	ruleFeederPanics(w, r, "C14.i")
+	ruleSharedHandlesNotMutated(w, r, "C14.j")
 }
 
 func init() {
@@ -379,6 +394,8 @@ func propC18(w *World, r *Run) {
 	ruleFeederAs(w, r, "C18.g")
 	ruleFetchURLIsBasePlusPath(w, r, "C18.i")
 	ruleFetcherStateless(w, r, "C18.j")
+	ruleSharedHandlesNotMutated(w, r, "C18.k")
+	ruleShippedSumDBURL(w, r, "C18.l")
 	ruleHonestStep(w, r, analyseUpdate(w, r), "C18.h", "0<stored<submitted") // a growth step between two non-zero sizes: what a feeder's proof is for
 }
 
@@ -422,4 +439,6 @@ func propC19(w *World, r *Run) {
 	sort.Strings(unb)
 	r.extra["io_ReadAll_sites_not_decided"] = unb
 	ruleNoUnboundedClient(w, r, "C19.m")
+	ruleDecodedPointersGuarded(w, r, "C19.p")
+	ruleTickerDurationsPositive(w, r, "C19.q")
 }
